@@ -913,6 +913,12 @@ func (mpt *MerklePatriciaTrie) insertNode(oldNode Node, newNode Node) (Node, Key
 	}
 
 	newNode.SetOrigin(mpt.Version)
+	return mpt.replaceNode(oldNode, newNode)
+}
+
+// replaceNode stores newNode under its own key in place of oldNode (nil: newNode is an addition) and
+// records the change. The node keeps the origin it carries.
+func (mpt *MerklePatriciaTrie) replaceNode(oldNode Node, newNode Node) (Node, Key, error) {
 	ckey := newNode.GetHashBytes()
 	if err := mpt.db.PutNode(ckey, newNode); err != nil {
 		return nil, nil, err
@@ -1152,7 +1158,9 @@ func (mpt *MerklePatriciaTrie) mergeChanges(newRoot Key, changes []*NodeChange, 
 	}
 
 	for _, c := range orderChanges(changes) {
-		if _, _, err := mpt.insertNode(c.Old, c.New); err != nil {
+		// the child's nodes are referenced by the keys they were created with: merging must not
+		// re-stamp their origin with this trie's version
+		if _, _, err := mpt.replaceNode(c.Old, c.New); err != nil {
 			return err
 		}
 	}
